@@ -24,9 +24,9 @@ type allowSite struct {
 
 var c20Allow = []allowSite{
 	// attestation[i*65+a : i*65+b] with 0 <= a <= b <= 65, i a counter from a non-negative start
-	{"keeper.VerifyAttestationSignatures", `^p1\[(\(phi\(\(@ \+ 1\)\|\d+\) \* 65\)|\(\(phi\(\(@ \+ 1\)\|\d+\) \* 65\) \+ ([0-9]|[1-5][0-9]|6[0-5])\)):\(\(phi\(\(@ \+ 1\)\|\d+\) \* 65\) \+ ([0-9]|[1-5][0-9]|6[0-5])\)\]$`,
+	{"keeper.VerifyAttestationSignatures", `^p1\[(\(#i\d+ \* 65\)|\(\(#i\d+ \* 65\) \+ ([0-9]|[1-5][0-9]|6[0-5])\)):\(\(#i\d+ \* 65\) \+ ([0-9]|[1-5][0-9]|6[0-5])\)\]$`,
 		"needs len(attestation) >= 65*t and i < t without uint32 wrap-around; both tests are established here, and t <= number of attesters (C13), so 65*t cannot wrap below ~66 million attesters",
-		[]string{"((p3 * 65) == uint32(len(p1)))|!(uint32(len(p1)) < (p3 * 65))", "(phi((@ + 1)|0) < p3)|(phi((@ + 1)|1) < p3)"}},
+		[]string{"((p3 * 65) == uint32(len(p1)))|!(uint32(len(p1)) < (p3 * 65))", "(#i0 < p3)|(#i1 < p3)"}},
 }
 
 // math.Int methods that are safe on the zero value (nil inner *big.Int), checked in cosmossdk.io/math v1.3.0
